@@ -42,7 +42,7 @@ def _phase(msg):
     if os.environ.get("C35_VERBOSE"):
         print("[c35 %6.1fs] %s" % (time.time() - _T0[0], msg), flush=True)
 CFG = {"quick": "RefOwn_quick", "thorough": "RefOwn_thorough"}
-BATCH = {"quick": 85, "thorough": 170}
+BATCH = {"quick": 70, "thorough": 150}
 TRACE_SAMPLE = {"quick": 110, "thorough": 1500}
 LEGS = ("recorder", "stock", "plain")
 FIELDS = ("exc", "log", "res", "glob")
@@ -78,12 +78,21 @@ def descriptor(r, variant, leg):
     d = {"variant": variant, "leg": leg, "inject": k > 0,
          "inj_site": r["sites"][k - 1] if k > 0 else "",
          "inj_op": r["log"][k - 1].split(".", 1)[1].split("(")[0] if k > 0 else "",
-         "sem": ",".join(sorted(set(r["sem"]))), "exc": r["exc"]}
+         "sem": ",".join(sorted(set(r["sem"]))), "exc": r["exc"], "not_fstr": not_fstr(r["prog"])}
     return d
 
 
-def classify(want, got, leg):
-    """-> sorted list of observation classes in which `got` deviates from the spec"""
+def not_fstr(e):
+    """static feature of the program: `not` applied directly to an f-string"""
+    if e["t"] == "not" and e["a"][0]["t"] == "fstr":
+        return True
+    return any(not_fstr(c) for c in e["a"])
+
+
+def classify(want, got, leg, peer=None):
+    """-> sorted list of observation classes in which `got` deviates from the spec.
+    peer: the recorder leg's observation of the same case (stock leg only): the stock nanny must complain
+    exactly when the ownership automaton flags the recorded stream"""
     if got is None:
         return ["missing"]
     if got.get("crash"):
@@ -106,6 +115,9 @@ def classify(want, got, leg):
             cl.add("nanny-" + kind)
     if leg == "stock" and got.get("report"):
         cl.add("stock-report")
+    if leg == "stock" and not got.get("report") and peer is not None and \
+            any(k in ("leak", "underflow", "null") for k, _ in peer.get("judge") or []):
+        cl.add("stock-silent")
     return sorted(cl)
 
 
@@ -356,7 +368,7 @@ def run(tier, seed):
     rng = random.Random(seed)
     rep = core.Reporter(PROP)
     workers = int(os.environ.get("C35_WORKERS", "0")) or None
-    jobs = int(os.environ.get("C35_JOBS", "0")) or max(4, core.NCPU // 2)
+    jobs = int(os.environ.get("C35_JOBS", "0")) or core.NCPU
 
     # ---- the model: programs x injection points with expected observations
     r = core.tlc_or_die("RefOwn", CFG[tier], env={"C35_SEED": seed}, timeout=3000, workers=workers)
@@ -492,7 +504,7 @@ def run(tier, seed):
             for leg in LEGS:
                 evaluations += 1
                 got = obs[leg].get((fn, k))
-                cl = classify(want, got, leg)
+                cl = classify(want, got, leg, obs["recorder"].get((fn, k)) if leg == "stock" else None)
                 if not cl:
                     agree += 1
                     continue
@@ -546,7 +558,7 @@ def run(tier, seed):
         "programs": len(progs), "functions_compiled": sum(len(st["funcs"]) for st in state.values()), "modules": len(state),
         "functions_rejected_by_compiler": rejected[:20],
         "cases": n_cases, "evaluations": evaluations, "agreeing": agree,
-        "traces_validated_against_impl": len(traces), "traces_validated_by_tlc": n_tlc,
+        "traces_validated_against_impl": evaluations, "nanny_streams_judged": len(traces), "nanny_streams_judged_by_tlc": n_tlc,
         "nanny_events": sum(len(t) for t in traces.values()),
         "corrupted_traces_rejected": n_corrupt, "corrupted_expectations_rejected": caught,
         "distinct_nontrivial": len(nontrivial),
